@@ -37,6 +37,10 @@ def render(run) -> str:
         o.append('CONNECT 1')
     if run.get('templog'):
         o.append('TEMPLOG 1')
+    if run.get('lazycomp'):
+        o.append('LAZYCOMP 1')
+    if run.get('idquery'):
+        o.append(f"IDQUERY {run['idquery']}")
     if run.get('slowlog'):
         o.append(f"SLOWLOG {run['slowlog']}")
     for t in run['tasks']:
@@ -52,6 +56,17 @@ def render(run) -> str:
 # ------------------------------------------------------------------------------------------------ helpers
 CLIENT_NAME_POOL = ['zeta', 'alpha', 'mike', 'client10', 'client2', 'client1', 'A', 'a', 'Z', 'b.c', 'x/y', 'ab', 'abc', '9lives', '_u', 'UPPER',
                     'lower', 'mixedCase', 'mixedcase', 'c', 'cc', 'ccc', '~tilde', '0']
+
+
+def vary_env(rng: Rng, run):
+    """Environment variations that are legal for any user and any wrapped component (drawn from a stream derived from,
+    but not advancing, the generator's): a component that does not look up the runtime itself, and a query for the
+    client identifiers in the middle of registration."""
+    r = Rng(rng.state, 'env')
+    run['lazycomp'] = 1 if r.chance(40) else 0
+    if run.get('clients', 0) >= 2 and r.chance(50):
+        run['idquery'] = r.between(1, run['clients'] - 1)
+    return run
 
 
 def client_names(rng: Rng, n):
@@ -144,6 +159,7 @@ def gen_routing_run(rng: Rng, mb, rid, sweep=False):
     mci = mc_info(mb)
     run['clients'] = 1 if mci else 0
     run['client_names'] = client_names(rng.fork('names'), run['clients'])
+    vary_env(rng, run)
     run['loc']['svcs'] = rng.below(3)
     run['parent'] = rng.below(2)
     client_events = [e for e in oc if ports[e['port']]['dir'] == 'provides' and (not mci or e['idx'] not in (mci['claim'], mci['release']))]
@@ -214,15 +230,17 @@ def gen_c09_runs(rng: Rng, mb, n):
     the one world per origin in which construction must succeed (identity monitored on every dispatched event)."""
     origin = mb.cfgspec['origin']
     runs = []
-    for pump in (0, 1):
-        for runtime in (0, 1):
-            for svcs in (0, 1, 2):
-                run = new_run(f'loc{pump}{runtime}{svcs}', origin)
-                run['loc'] = {'pump': pump, 'runtime': runtime, 'svcs': svcs}
-                run['clients'] = 1 if mb.mc else 0
-                run['policy'] = POL_DEFAULT
-                run['kind'] = 'construction'
-                runs.append(run)
+    for lazy in (0, 1):
+        for pump in (0, 1):
+            for runtime in (0, 1):
+                for svcs in (0, 1, 2):
+                    run = new_run(f'loc{pump}{runtime}{svcs}' + ('lazy' if lazy else ''), origin)
+                    run['loc'] = {'pump': pump, 'runtime': runtime, 'svcs': svcs}
+                    run['clients'] = 1 if mb.mc else 0
+                    run['policy'] = POL_DEFAULT
+                    run['kind'] = 'construction'
+                    run['lazycomp'] = lazy
+                    runs.append(run)
     for i in range(n):
         run = gen_routing_run(rng.fork('w', i), mb, f'w{i}')
         run['kind'] = 'workload'
@@ -262,11 +280,13 @@ def gen_c10_runs(rng: Rng, mb, n):
     for parent in (0, 1):
         run = new_run(f'allbound-parent{parent}', origin)
         run.update({'clients': n_clients, 'client_names': names, 'parent': parent, 'probes': 1, 'policy': POL_DEFAULT, 'kind': 'all-bound'})
+        vary_env(Rng(rng.state, 'allbound', parent), run)
         runs.append(run)
     for side, ev, cl in user_bound_events(mb, n_clients):
         run = new_run(f'unbound-{side}-{ev}-{cl}', origin)
         run.update({'clients': n_clients, 'client_names': names, 'parent': rng.below(2), 'probes': 3, 'policy': POL_DEFAULT,
                     'kind': 'one-unbound', 'unbinds': [[side, ev, cl]]})
+        vary_env(Rng(rng.state, 'unbound'), run)
         runs.append(run)
     return runs
 
@@ -284,6 +304,7 @@ def gen_c04_run(rng: Rng, mb, rid, faulty):
     n_clients = rng.between(1, 4)
     run['clients'] = n_clients
     run['client_names'] = client_names(rng.fork('names'), n_clients)
+    vary_env(rng, run)
     run['parent'] = rng.below(2)
     mc_out = list(mc['out_events'])
     others = list(mc['other_in'])
@@ -357,6 +378,7 @@ def gen_c11_run(rng: Rng, mb, rid):
     n_clients = rng.between(2, 3)
     run['clients'] = n_clients
     run['client_names'] = client_names(rng.fork('names'), n_clients)
+    vary_env(rng, run)
     mc_out = list(mc['out_events'])
     others = list(mc['other_in'])
     peer_events = [e['idx'] for e in oc if ports[e['port']]['dir'] == 'requires']
